@@ -21,7 +21,7 @@ import (
 
 const simrtPath = "verif.local/simrt"
 
-var knobNames = map[string]bool{"truncateDiff": true, "maxArraySize": true, "maxRepeats": true, "truncateVrxTopMark": true}
+var knobNames = map[string]bool{"initialThroughput": true, "truncateDiff": true, "maxArraySize": true, "maxRepeats": true, "truncateVrxTopMark": true}
 
 type stats struct {
 	gos, sends, recvs, selects, rangeChan, rangeMap, rangeIface, locks, dbcalls, pre, sleeps, entry, knobs, seams, skipped int
